@@ -2,7 +2,9 @@ package filesys
 
 import (
 	"fmt"
+	"os"
 	"path"
+	"sync/atomic"
 
 	"github.com/pkg/errors"
 	"golang.org/x/sys/unix"
@@ -83,10 +85,17 @@ func (fs DirFs) Delete(dir, fname string) {
 	}
 }
 
+// tmpCounter makes the staging file of every AtomicCreate call distinct.
+var tmpCounter uint64
+
 func (fs DirFs) AtomicCreate(dir, fname string, data []byte) {
-	tmpFile := fname + ".tmp"
+	// The staging file is private to this call (concurrent calls, also for the
+	// same name in different directories, must not share it) and is truncated
+	// in case an interrupted earlier call left one behind.
+	tmpFile := fmt.Sprintf("%s.%d-%d.tmp", fname, os.Getpid(),
+		atomic.AddUint64(&tmpCounter, 1))
 	fd, err := unix.Openat(fs.rootFd, tmpFile,
-		unix.O_CREAT|unix.O_WRONLY, 0644)
+		unix.O_CREAT|unix.O_TRUNC|unix.O_WRONLY, 0644)
 	if err != nil {
 		panic(err)
 	}
